@@ -4,6 +4,28 @@ PANIC_FN_PARTS = ("core::panicking::", "std::rt::begin_panic", "core::panic::", 
                   "core::slice::index::slice_", "core::str::slice_error_fail")
 UNWRAPS = ("unwrap", "expect", "unwrap_err", "expect_err", "unwrap_unchecked")
 INDEXES = ("index", "index_mut")
+# std methods documented to panic on an out-of-range index / a non-boundary offset (the receiver type decides: Vec::truncate does not panic, String::truncate does)
+STD_PANICS = (("string::String", ("truncate", "insert", "insert_str", "remove", "split_off", "drain", "replace_range")),
+              ("impl str", ("split_at", "split_at_mut")),
+              ("vec::Vec", ("remove", "insert", "swap_remove", "split_off", "drain", "extend_from_within", "splice")),
+              ("impl [T]", ("split_at", "split_at_mut", "copy_from_slice", "clone_from_slice", "swap", "rotate_left", "rotate_right", "copy_within", "chunks", "chunks_exact", "windows", "select_nth_unstable")),
+              ("vec_deque::VecDeque", ("insert", "split_off", "drain", "swap", "rotate_left", "rotate_right")),
+              ("time::Duration", ("from_secs_f64", "from_secs_f32", "mul_f64", "mul_f32", "div_f64", "div_f32")),
+              ("time::Instant", ("duration_since_unchecked",)))
+
+def std_panicky(p, name):
+    """`p` names method `name` of one of the receiver types above (…::String::truncate, …::Vec::<T, A>::remove, core::str::<impl str>::split_at)"""
+    if not p.endswith("::" + name): return False
+    q = p[:-len(name) - 2]
+    if q.endswith(">") and not q.endswith("impl str>") and not q.endswith("impl [T]>"):
+        depth = 0
+        for i in range(len(q) - 1, -1, -1):
+            if q[i] == ">": depth += 1
+            elif q[i] == "<":
+                depth -= 1
+                if depth == 0: q = q[:i].rstrip(":"); break
+    q = q.rstrip(">")
+    return any(q.endswith(recv) and name in names for recv, names in STD_PANICS)
 
 
 def panic_sites(body, skip_macros=()):
@@ -59,6 +81,8 @@ def panic_sites(body, skip_macros=()):
                 add("unwrap", "%s::%s" % ("Option" if "Option" in p else "Result", c.name), t, operand=t.args[0] if t.args else None)
             elif c.name in INDEXES and ("Index" in (c.trait or "") or "ops::Index" in p or "index::" in p):
                 add("index", short(p), t, operands=t.args[:2])
+            elif std_panicky(p, c.name):
+                add("stdpanic", short(p), t, operands=t.args[1:3])
             elif any(x in p for x in PANIC_FN_PARTS) or c.name in ("panic", "panic_fmt", "panic_display", "unreachable_display", "assert_failed", "panic_explicit", "begin_panic", "panic_nounwind"):
                 add("panic", c.name + ("[" + (t.mac or "") + "]" if t.mac else ""), t)
         elif t.kind == "call" and t.callee.indirect:
